@@ -79,7 +79,12 @@ pub proof fn ax_skip(s: SegmentIndex, i: int, a: Location)
 { admit(); }
 
 // ------------------------------------------------------------------ callee contracts
-pub struct Command { pub _p: () }
+/// the id of the command stored at a location
+pub uninterp spec fn id_at(l: Location) -> u64;
+pub struct Command { pub cid: Ghost<u64> }
+impl Command {
+    #[verifier::external_body] pub fn id(&self) -> (r: u64) ensures r == self.cid@ { unimplemented!() }
+}
 pub struct Segment { pub idx: SegmentIndex, pub priors: Prior<Location>, pub skips: Vec<Location> }
 impl Segment {
     pub open spec fn wf(&self) -> bool {
@@ -89,8 +94,10 @@ impl Segment {
     }
     #[verifier::external_body]
     pub fn get_command(&self, l: Location) -> (r: Option<Command>)
-        ensures r is Some <==> (l.segment == self.idx && seg_first(self.idx) <= l.max_cut <= seg_last(self.idx))
+        ensures r is Some <==> (l.segment == self.idx && seg_first(self.idx) <= l.max_cut <= seg_last(self.idx)),
+            r is Some ==> r->Some_0.cid@ == id_at(l),
     { unimplemented!() }
+    pub fn index(&self) -> (r: SegmentIndex) ensures r == self.idx { self.idx }
     pub fn skip_list(&self) -> (r: &Vec<Location>) ensures r@ == self.skips@ { &self.skips }
     pub fn prior(&self) -> (r: Prior<Location>) ensures r == self.priors { match &self.priors { Prior::None => Prior::None, Prior::Single(a) => Prior::Single(*a), Prior::Merge(a, b) => Prior::Merge(*a, *b) } }
 }
@@ -274,16 +281,16 @@ proof fn lemma_below_loc(k: Location, loc: Location)
 pub struct Address { pub id: u64, pub max_cut: MaxCut }
 /// the location of the command with this address, if the storage holds it
 pub uninterp spec fn target(a: Address) -> Option<Location>;
+/// A7 an address (id, max cut) names at most one stored command: target(a) is the valid location at that max cut
+/// holding that id, if there is one (command ids are unique)
+pub proof fn ax_target_def(a: Address, l: Location)
+    ensures target(a) == Some(l) <==> (valid(l) && l.max_cut == a.max_cut && id_at(l) == a.id)
+{ admit(); }
 pub proof fn ax_target(a: Address)
     ensures target(a) is Some ==> valid(target(a)->Some_0) && target(a)->Some_0.max_cut == a.max_cut
-{ admit(); }
-impl Segment {
-    /// Segment::get_by_address: finds the command iff this segment holds it
-    #[verifier::external_body]
-    pub fn get_by_address(&self, a: Address) -> (r: Option<Location>)
-        ensures r is Some <==> (target(a) is Some && target(a)->Some_0.segment == self.idx),
-            r is Some ==> r == target(a),
-    { unimplemented!() }
+{ if target(a) is Some { ax_target_def(a, target(a)->Some_0); } }
+impl Location {
+    pub fn new(segment: SegmentIndex, max_cut: MaxCut) -> (r: Self) ensures r == (Location { max_cut, segment }) { Location { max_cut, segment } }
 }
 /// l is an ancestor-or-self of one of the seeds
 pub open spec fn from_seeds(l: Location, seeds: Map<SegmentIndex, MaxCut>) -> bool {
@@ -759,6 +766,28 @@ GET_LOC = FnSpec(
         }"""),
     ])
 
+GET_BY_ADDR = FnSpec(
+    FILE, 'get_by_address', r'pub trait Segment\b',
+    contract="""
+        requires self.wf(),
+        ensures
+            // finds the command iff this segment holds it, and returns the location that holds it
+            r is Some <==> (target(address) is Some && target(address)->Some_0.segment == self.idx),
+            r is Some ==> r == target(address),
+""",
+    inserts=[
+        ('before', 'let cmd = self.get_command(loc)?;', """proof {
+            ax_target_def(address, loc);
+            if target(address) is Some {
+                let t = target(address)->Some_0;
+                ax_target_def(address, t);
+                ax_valid_range(t);
+            }
+            if seg_first(self.idx) <= loc.max_cut <= seg_last(self.idx) { ax_valid_in_range(self.idx, loc.max_cut); }
+            ax_valid_range(loc);
+        }"""),
+    ])
+
 
 def build():
-    return build_unit(PRELUDE, [('impl LocatedAddress', [LOCATION]), (None, [SEARCH]), ('impl Storage', [IS_ANC, GET_LOC, GET_LOC_FROM])])
+    return build_unit(PRELUDE, [('impl LocatedAddress', [LOCATION]), ('impl Segment', [GET_BY_ADDR]), (None, [SEARCH]), ('impl Storage', [IS_ANC, GET_LOC, GET_LOC_FROM])])
